@@ -455,3 +455,56 @@ func diffD(a, b Node, path []int) D {
 	}
 	return D{}
 }
+
+// CheckExtents verifies only the containment rules of the format on the first item of b: every
+// item header and every (unpadded) value must lie inside the declared extent of the enclosing
+// structure (the whole buffer for the top-level item). It is deliberately lenient about
+// everything else (padding content, fixed widths, type values in leaves), and it stops walking
+// the children of a structure at an item whose tag is 0, which the library's generic decoder
+// treats as the end of the structure (what follows is never looked at, so no content is taken
+// from it). "The library accepted it" must therefore imply "CheckExtents accepts it".
+func CheckExtents(b []byte) error {
+	var stack []int
+	_, err := checkExtents(b, 0, len(b), &stack, true)
+	return err
+}
+
+func pathOf(stack []int) string {
+	if len(stack) > 12 {
+		stack = stack[len(stack)-12:]
+	}
+	var sb strings.Builder
+	for _, t := range stack {
+		fmt.Fprintf(&sb, "/%06X", t)
+	}
+	return sb.String()
+}
+
+func checkExtents(b []byte, off, end int, stack *[]int, top bool) (int, error) {
+	if end-off < 8 {
+		return 0, fmt.Errorf("%s: item header at %d does not fit in the extent ending at %d", pathOf(*stack), off, end)
+	}
+	tag := int(b[off])<<16 | int(b[off+1])<<8 | int(b[off+2])
+	l := int(binary.BigEndian.Uint32(b[off+4 : off+8]))
+	if l > end-off-8 {
+		return 0, fmt.Errorf("%s/%06X: value of %d bytes at %d runs past the extent ending at %d", pathOf(*stack), tag, l, off+8, end)
+	}
+	if b[off+3] == byte(Structure) {
+		*stack = append(*stack, tag)
+		p := off + 8
+		vend := off + 8 + l
+		for p < vend {
+			if vend-p >= 3 && b[p] == 0 && b[p+1] == 0 && b[p+2] == 0 {
+				break // tag 0: end of structure for the generic decoder
+			}
+			n, err := checkExtents(b, p, vend, stack, false)
+			if err != nil {
+				return 0, err
+			}
+			p += n
+		}
+		*stack = (*stack)[:len(*stack)-1]
+	}
+	padded := (l + 7) &^ 7
+	return 8 + padded, nil
+}
